@@ -72,6 +72,7 @@ func verif_x_strconv_Atoi(s string) (n int, err error) { return strconv.Atoi(s) 
 // ---- ghost state (C21): ref-mutating calls made on the database handle
 
 var verif_ghost struct {
-	nMut      int // calls of a ref-mutating hooksDatabase method
-	nCombined int // ... of which CommitWithWorkingSet (head and working set in one root update)
+	nMut      int    // calls of a ref-mutating hooksDatabase method
+	nCombined int    // ... of which CommitWithWorkingSet (head and working set in one root update)
+	specName  string // the base name the most recent SplitAncestorSpec cut off
 }
